@@ -27,7 +27,7 @@ def fold(e, env=None, depth=0):
         return fold(e[1], env, depth + 1)
     if k == "call":
         n = e[1] or ""
-        if n.endswith("::bits") or n.endswith("::into_raw") or n.endswith("::value") or n.endswith("::0"):
+        if n.endswith(("::bits", "::into_raw", "::value", "::raw", "::into_u32", "::into_u64", "::into_usize", "::into_i32")):
             return fold(e[2][0], env, depth + 1) if e[2] else None
         return None
     if k == "un":
